@@ -9,6 +9,8 @@
  *     prints  D <decoded> <flags> <status>|U <utf8-decoded> <flags> <status>|V <flags>|N <normalised>|P <pipeline> <flags> <status> <pipeline normalised again>
  *     every stage runs on its own exact-size copy of the raw input with tx->flags = 0 and
  *     tx->response_status_expected_number = 0; flags are tx->flags masked to the HTP_PATH_* bits.
+ *   paths <same fields as path>   prints  D <decoded> <flags>|U <utf8-decoded> <flags>|V <flags>   (no status): the three
+ *     functions against the declarative specification (coq/Spec/SPath.v) instead of the code-shaped model
  *   pathn <TAB> <hex path>      prints  <normalised> <normalised again>    (htp_normalize_uri_path_inplace only) */
 static htp_cfg_t *pth_cfg = NULL;
 static htp_connp_t *pth_connp = NULL;
@@ -52,7 +54,8 @@ static int drv_path(char **f, int nf) {
         bstr_free(b); bstr_free(b2); free(a);
         return 1;
     }
-    if (strcmp(f[0], "path") != 0) return 0;
+    int spec_only = strcmp(f[0], "paths") == 0;
+    if (!spec_only && strcmp(f[0], "path") != 0) return 0;
     if (nf < 6 || strlen(f[1]) != 9) { printf("?args"); return 1; }
     htp_tx_t *tx = pth_tx();
     htp_decoder_cfg_t *d = &tx->cfg->decoder_cfgs[HTP_DECODER_URL_PATH];
@@ -92,6 +95,28 @@ static int drv_path(char **f, int nf) {
     size_t la = 0;
     unsigned char *a = unhex_exact(f[5], &la);
     bstr *b;
+
+    if (spec_only) {
+        tx = pth_tx();
+        b = pth_copy(a, la);
+        htp_status_t rcs = htp_decode_path_inplace(tx, b);
+        printf("D ");
+        if (rcs != HTP_OK) printf("?rc%d ", (int) rcs);
+        putbstr(b); printf(" %llu", (unsigned long long) (tx->flags & PTH_MASK));
+        bstr_free(b);
+        tx = pth_tx();
+        b = pth_copy(a, la);
+        htp_utf8_decode_path_inplace(tx->cfg, tx, b);
+        printf("|U "); putbstr(b); printf(" %llu", (unsigned long long) (tx->flags & PTH_MASK));
+        bstr_free(b);
+        tx = pth_tx();
+        b = pth_copy(a, la);
+        htp_utf8_validate_path(tx, b);
+        printf("|V %llu", (unsigned long long) (tx->flags & PTH_MASK));
+        bstr_free(b);
+        free(a);
+        return 1;
+    }
 
     /* D: htp_decode_path_inplace */
     tx = pth_tx();
